@@ -58,6 +58,7 @@ type Oracles struct {
 	payloadAt map[uint64]uint64
 	watched  map[uint64]string
 	bootstrapped bool
+	timeoutNows map[string][]int64
 	termStart map[string]uint64 // server/term -> first index it appended as leader of that term
 	userSnaps map[uint64]uint64 // state hash of operator-supplied snapshots -> burned index
 	Quiet    bool // faults have stopped: progress rules (C12/R3) are armed
@@ -77,7 +78,7 @@ type Oracles struct {
 func newOracles(w *World) *Oracles {
 	return &Oracles{w: w, entries: map[idxTerm]entryID{}, committed: map[uint64]*centry{}, fsmNext: map[*Instance]uint64{},
 		leaderOf: map[uint64]string{}, senderOf: map[uint64]string{}, Stats: map[string]int{},
-		acks: map[string][]Ack{}, payloadAt: map[uint64]uint64{}, watched: map[uint64]string{}, snapRepeat: map[string]*repeatRec{}, aeRepeat: map[string]*repeatRec{}, userSnaps: map[uint64]uint64{}, termStart: map[string]uint64{}}
+		acks: map[string][]Ack{}, payloadAt: map[uint64]uint64{}, watched: map[uint64]string{}, snapRepeat: map[string]*repeatRec{}, aeRepeat: map[string]*repeatRec{}, userSnaps: map[uint64]uint64{}, termStart: map[string]uint64{}, timeoutNows: map[string][]int64{}}
 }
 
 func contentHash(l *raft.Log) uint64 {
@@ -732,6 +733,8 @@ func (o *Oracles) onRequest(m *Msg, target *Instance) {
 				}
 			}
 		}
+	case KTimeout:
+		o.timeoutNows[m.To] = append(o.timeoutNows[m.To], o.w.Now())
 	case KVote:
 		// the candidate voted for itself in this term
 		if s := o.w.Servers[m.From]; s != nil {
